@@ -12,6 +12,23 @@ if not os.path.exists(wt):
 out = os.path.dirname(wt) + "/out"
 os.makedirs(out, exist_ok=True)
 text = {k: p[k] for k in ("id", "title", "statement", "quantifier", "why_tests_cant", "anchors")}
+# later rounds: name the sites earlier independent changes touched (file + hunk header only) so that this one is different
+import glob, re
+avoid = []
+for pd in sorted(glob.glob("/verif/seeded/%s-*/patch.diff" % pid)):
+    if pd.endswith("/%s-%s/patch.diff" % (pid, tag)):
+        continue
+    cur = None
+    for l in open(pd):
+        if l.startswith("+++ b/"):
+            cur = l[6:].strip()
+        m = re.match(r"@@ .* @@\s*(.*)", l)
+        if m and cur:
+            avoid.append("%s (%s)" % (cur, m.group(1).strip()[:80] or "top of file"))
+AVOID = ""
+if avoid:
+    AVOID = ("\n\nEarlier, independent changes for this property already touched these places; pick a DIFFERENT mechanism in a different function "
+             "(ideally a different clause of the property statement): " + "; ".join(sorted(set(avoid))) + ".")
 print("""You are given a git worktree of the MuJoCo physics-engine repository at %s (a scratch copy: edit it freely; do NOT touch /repo or /verif, and do not read anything under /verif — your work must be independent of it). An offline build kit is at /tmp/seedkit (read /tmp/seedkit/README.md first: it explains how to build the C/C++ library from the tree without network and how to run the repository's pinned test suite).
 
 The following semantic property is supposed to hold for this code base:
@@ -26,4 +43,4 @@ Deliverables, all under %s:
   patch.diff   — `git -C %s diff` of your change (source only)
   demo.*       — the demonstration plus a `run_demo.sh <tree> <libdir>` wrapper that builds/runs it against a given tree/library and exits 0/1
   NOTES.md     — what you changed and why it breaks the property; exactly what is needed for the break to manifest; the commands you ran and their outputs (pinned tests with the change: N passed; demo on changed tree: FAIL; demo on unchanged tree: PASS)
-Leave the worktree with your change applied. Keep it to one change. Your final message: ≤15 lines summarising the change, the trigger condition and the evidence.""" % (wt, json.dumps(text, indent=1), wt, out, wt))
+Leave the worktree with your change applied. Keep it to one change. Your final message: ≤15 lines summarising the change, the trigger condition and the evidence.""" % (wt, json.dumps(text, indent=1) + AVOID, wt, out, wt))
